@@ -449,8 +449,12 @@ func TestVX_C03run(t *testing.T) {
 		if st.Capped {
 			rep.Cap(fmt.Sprintf("deadline reached in config %s: deviation bound %d completed", cfg, st.BoundDone))
 		}
-		if b, ok := rep.BoundDone["deviations"]; !ok || st.BoundDone < b {
-			rep.BoundDone["deviations"] = st.BoundDone
+		bk := "deviations(stop event only)"
+		if cfg.Faults {
+			bk = "deviations(stop event + write faults)"
+		}
+		if b, ok := rep.BoundDone[bk]; !ok || st.BoundDone < b {
+			rep.BoundDone[bk] = st.BoundDone
 		}
 		if sample != nil && ci%5 == 0 {
 			rep.Sample(sample)
